@@ -63,9 +63,16 @@ class PathI(Interface):
     methods = {
         'relative_to': Method(returns=Iface(lambda: PathI), may_raise=(ValueError,)),
         '__str__': Method(returns=Str),
-        'resolve': Method(returns=Iface(lambda: PathI)),
+        'resolve': Method(returns=Iface(lambda: ResolvedPathI), pure=True),
+        'stat': Method(returns=Any_, may_raise=(FileNotFoundError,)),
     }
     attrs = {'parent': Iface(lambda: PathI), 'name': Str, 'parts': Any_}
+
+
+class ResolvedPathI(PathI):
+    """an absolute, resolved path: two of them are equal (and hash alike) iff their `ident` is the same"""
+    map_key = 'ident'
+    attrs = {'ident': Int}
 
 
 class DurationI(Interface):
@@ -851,6 +858,108 @@ M.contract('exactly_lib.test_suite.reporting:SubSuiteReporter.case_end',
                len(self._result) == old + 1 and self._result[old][0] is case
                and self._result[old][1] is execution_info and self.result() is self._result,
            }, raises_only=())
+
+# ------------------------------------------------------------------------------ reading the hierarchy
+from contracts.common import keys_subset
+from pyvc.api import MapOf
+from exactly_lib.section_document.model import ElementType
+from exactly_lib.test_suite.file_reading import suite_hierarchy_reading
+from exactly_lib.test_suite.instruction_set import instruction as suite_instruction
+
+P_READ = 'exactly_lib.test_suite.file_reading.suite_hierarchy_reading'
+
+
+def _mk_not_accessible(interp, o):
+    e = suite_instruction.FileNotAccessibleSimpleError.__new__(suite_instruction.FileNotAccessibleSimpleError)
+    e._file_path = Iface(PathI).make(interp, 'inaccessible_file')
+    e._error_message_header = Str.make(interp, 'error_message_header')
+    return e
+
+
+class FileRefInstructionI(Interface):
+    """TestSuiteFileReferencesInstruction: the paths it resolves to (a function of the instruction), or
+    FileNotAccessibleSimpleError (its docstring)"""
+    target_class = suite_instruction.TestSuiteFileReferencesInstruction
+    methods = {'resolve_paths': Method(returns=ListOf(Iface(PathI)), pure=True, may_raise=(_mk_not_accessible,))}
+
+
+class InstructionInfoI(Interface):
+    attrs = {'instruction': Iface(FileRefInstructionI)}
+
+
+class ElementI(Interface):
+    attrs = {'element_type': EnumOf(ElementType), 'instruction_info': Iface(InstructionInfoI), 'source': Any_}
+
+
+class SectionContentsI(Interface):
+    attrs = {'elements': ListOf(Iface(ElementI))}
+
+
+class SuiteDocumentI(Interface):
+    attrs = {'suites_section': Iface(SectionContentsI), 'cases_section': Iface(SectionContentsI)}
+
+
+def key(path):
+    """what decides whether two references lead to the same suite file: the resolved path"""
+    return path.resolve().ident
+
+
+def _new_and_distinct(paths, n, before, now):
+    """the first n paths were not in `before`, are pairwise different, and are in `now`"""
+    return forall_range(0, n, lambda k: key(paths[k]) in now and key(paths[k]) not in before
+                        and forall_range(0, k, lambda k2: key(paths[k2]) != key(paths[k])))
+
+
+def _grown_by(x, paths, n, before, now):
+    """as far as the (arbitrary, fixed) resolved path x goes: now = before + the first n paths"""
+    return (x in now) == (x in before or exists_range(0, n, lambda k: key(paths[k]) == x))
+
+
+SINGLE_FILE_READER = Inst(suite_hierarchy_reading._SingleFileReader, environment=Any_,
+                          _root_suite_file_path=Iface(PathI), _visited=MapOf(Int, Any_))
+
+M.contract(P_READ + ':_SingleFileReader.__init__',
+           params=dict(self=Inst(suite_hierarchy_reading._SingleFileReader), environment=Any_,
+                       root_suite_file_path=Iface(PathI)),
+           ghosts=dict(x=Int), inline=True,
+           ensures={
+               'visited = {the root suite file}': lambda self, root_suite_file_path, x:
+               (x in self._visited) == (x == key(root_suite_file_path)),
+           }, raises_only=())
+
+M.contract(P_READ + ':_SingleFileReader._resolve_paths',
+           params=dict(self=SINGLE_FILE_READER, test_suite=Iface(SuiteDocumentI), suite_file_path=Iface(PathI)),
+           ghosts=dict(x=Int), old=lambda self: self._visited.copy(),
+           ensures={
+               'accepted suite files were not visited before and are pairwise different (by resolved path)':
+                   lambda self, result, old: _new_and_distinct(result[0], len(result[0]), old, self._visited),
+               'visited grows by exactly the accepted suite files': lambda self, result, old, x:
+               _grown_by(x, result[0], len(result[0]), old, self._visited) and keys_subset(old, self._visited),
+           },
+           raises={
+               suite_exception.SuiteDoubleInclusion: {},      # a suite file referenced twice / cyclically
+               suite_exception.SuiteFileReferenceError: {},   # a referenced file is not accessible
+           },
+           raises_only=())
+
+_PFI = P_READ + ':_SingleFileReader._resolve_paths.<locals>.paths_for_instructions'
+_CHK = P_READ + ':_SingleFileReader._resolve_paths.<locals>.check_suite_paths_for_double_inclusion'
+
+M.loop(_PFI, 0, entry=lambda self: self._visited.copy(),
+       invariant=lambda _entry, self, ret_val, paths_checker, no_check, x:
+       keys_subset(_entry, self._visited)
+       and (((x in self._visited) == (x in _entry)) if paths_checker is no_check else
+            (_new_and_distinct(ret_val, len(ret_val), _entry, self._visited)
+             and _grown_by(x, ret_val, len(ret_val), _entry, self._visited))),
+       modifies={'ret_val': ListOf(Iface(PathI)), 'self._visited': MapOf(Int, Any_), 'element': 'local',
+                 'path_instruction': 'local', 'paths': 'local', 'ex': 'local'})
+
+M.loop(_CHK, 0, entry=lambda self: self._visited.copy(),
+       invariant=lambda _i, _entry, self, paths_from_instruction, x:
+       keys_subset(_entry, self._visited)
+       and _new_and_distinct(paths_from_instruction, _i, _entry, self._visited)
+       and _grown_by(x, paths_from_instruction, _i, _entry, self._visited),
+       modifies={'self._visited': MapOf(Int, Any_), 'path': 'local', 'resolved_path': 'local'})
 
 # ------------------------------------------------------------------------------ the status partition
 
